@@ -13,7 +13,8 @@ from .. import core, impl, sweep, models, par, workers
 from . import C17, C09
 
 CLAUSES = {"uncoupled", "unknown-gate"}
-MEAS_CLAUSES = {"uncoupled", "unknown-gate", "outside", "prep-changed", "measure", "metadata"}
+# `metadata` (readout part = the circuit stored in the ReadoutInfo) is evaluated by the trace spec but NOT counted here: the property does not speak about it
+MEAS_CLAUSES = {"uncoupled", "unknown-gate", "outside", "prep-changed", "measure"}
 
 
 def run(tier):
@@ -97,8 +98,6 @@ def run(tier):
     for t, (cl, _) in zip(mtraces, v):
         ck.count(("meas", t["n"], tuple(t["list"]), t["conn"], t["what"], t["index"], str(t["prep"])), any(g[2] >= 0 for g in t["gates"][t["preplen"]:]))
         bad = cl & MEAS_CLAUSES
-        if not t["metaok"]:
-            bad = bad | {"metadata"}
         if bad:
             ck.violation(f"meas {t['n']} {t['list']} {t['conn']} {t['what']} {t['index']}", f"{t['what']} measurement circuit N={t['n']} qubits={t['list']} conn={t['conn']} #{t['index']} fails {sorted(bad)}",
                          {"trace": t, "clauses": sorted(bad)})
